@@ -381,10 +381,11 @@ func (r constantReference) Link(scope Scope, t TypeSpec) (ConstantValue, error) 
 
 	if enum, ok := lookupEnum(scope, mname); ok {
 		if item, ok := enum.LookupItem(iname); ok {
+			// The item must still be a value of the requested type.
 			return EnumItemReference{
 				Enum: enum,
 				Item: item,
-			}, nil
+			}.Link(scope, t)
 		}
 
 		return nil, referenceError{
